@@ -183,7 +183,10 @@ pub fn mode_device(inp: &str, outp: &str) -> i32 {
                                 .iter()
                                 .filter_map(|a| {
                                     Some(wgpu::VertexAttribute {
-                                        format: serde_json::from_value(a["format"].clone()).ok()?,
+                                        format: serde_json::from_value(json!(a["format"]
+                                            .as_str()?
+                                            .to_lowercase()))
+                                        .ok()?,
                                         offset: a["offset"].as_u64()?,
                                         shader_location: a["location"].as_u64()? as u32,
                                     })
@@ -218,7 +221,14 @@ pub fn mode_device(inp: &str, outp: &str) -> i32 {
                                 buffers: &layouts,
                             },
                             primitive: Default::default(),
-                            depth_stencil: None,
+                            // a vertex-only pipeline needs some attachment
+                            depth_stencil: Some(wgpu::DepthStencilState {
+                                format: wgpu::TextureFormat::Depth32Float,
+                                depth_write_enabled: true,
+                                depth_compare: wgpu::CompareFunction::Always,
+                                stencil: Default::default(),
+                                bias: Default::default(),
+                            }),
                             multisample: Default::default(),
                             fragment: None,
                             multiview: None,
